@@ -89,7 +89,7 @@ def check_tok(case, rec):
     fresh = tok.deliver(tok.make_tokenizer(v3, p), s3, deliv)
 
     def norm(toks, frames):
-        idx = {id(f): i for i, f in enumerate(frames)} if kind == "obj" else None
+        idx = {id(f): i for i, f in enumerate(frames)} if kind in ("obj", "np") else None
         return [((s, e), [idx.get(id(f), -1) for f in fr] if idx is not None else list(fr)) for fr, s, e in toks]
 
     a, b = norm(second, f2), norm(fresh, f3)
